@@ -429,8 +429,28 @@ def check_accessors(spec, model, fs, frames, cols, sl, chs):
             expcol = [float(v) for f in frames for v in model['matrix'][f][c]]
             if col != expcol:
                 return [({'kind': 'channel_view_values'}, 'load(%r,%r): frameView(%d,0)=%r recorded %r' % (sl, chs, c, col, expcol))]
+            gen = [float(v) for v in fs.genChScValues(c, 0)]
+            if gen != expcol and not (np.isnan(gen).all() and np.isnan(expcol).all() and len(gen) == len(expcol)):
+                return [({'kind': 'channel_view_values', 'accessor': 'genChScValues'}, 'load(%r,%r): genChScValues(%d,0)=%r recorded %r' % (sl, chs, c, gen, expcol))]
         except Exception as err:  # noqa
             return [({'kind': 'accessor_raises', 'exc': type(err).__name__}, 'load(%r,%r): channel %d: %s: %s' % (sl, chs, c, type(err).__name__, err))]
+    # the generator over everything loaded: (frame, channel, sub-channel, sample, burst, value) in frame / channel / sample / burst order
+    if not any(spec['channels'][c]['code'] in DIP_VALUES for c in cols):
+        try:
+            got = [(int(a), int(b), int(sc), int(sa), int(bu), float(v)) for a, b, sc, sa, bu, v in fs.genAll()]
+        except Exception as err:  # noqa
+            return [({'kind': 'accessor_raises', 'exc': type(err).__name__, 'accessor': 'genAll'}, 'load(%r,%r): genAll(): %s: %s' % (sl, chs, type(err).__name__, err))]
+        exp = []
+        for f in frames:
+            for c in cols:
+                bu_n = spec['channels'][c]['bursts']
+                for i, v in enumerate(model['matrix'][f][c]):
+                    exp.append((f, c, 0, i // bu_n, i % bu_n, float(v)))
+        same = len(got) == len(exp) and all(g[:5] == e[:5] and (g[5] == e[5] or (g[5] != g[5] and e[5] != e[5])) for g, e in zip(got, exp))
+        if not same:
+            k = next((i for i, (g, e) in enumerate(zip(got, exp)) if not (g[:5] == e[:5] and (g[5] == e[5] or (g[5] != g[5] and e[5] != e[5])))), min(len(got), len(exp)))
+            return [({'kind': 'gen_all_values'}, 'load(%r,%r): genAll() yields %d items, %d values are loaded; item %d is %r, recorded %r'
+                     % (sl, chs, len(got), len(exp), k, got[k] if k < len(got) else None, exp[k] if k < len(exp) else None))]
     return []
 
 
